@@ -38,6 +38,41 @@ type Ctx struct {
 	unfoldDepth map[string]int // per definition depth (default 1, or cx.fuel)
 	epochs     map[string]*State // tree snapshots other than the entry tree, by epoch name
 	epochKeys  map[string]string
+	recReads   map[string]map[string]bool // per recursive definition: heap components it reads (transitively)
+	curRec     []string
+	recCalls   map[string]map[string]bool
+}
+
+// epochName returns the symbol suffix for recursive definition 'name' evaluated against snapshot st:
+// "" when everything the definition reads is unchanged since the unit's entry.
+func (cx *Ctx) epochName(name string, st *State) string {
+	if st == nil || st == cx.tree {
+		return ""
+	}
+	var key strings.Builder
+	changed := false
+	for _, cn := range sortedKeys(cx.recReads[name]) {
+		now := st.Get(cx, cn)
+		if !same(cx.tree.Get(cx, cn), now) {
+			changed = true
+		}
+		key.WriteString(cn + "=" + now.String() + "|")
+	}
+	if !changed {
+		return ""
+	}
+	if cx.epochs == nil {
+		cx.epochs = map[string]*State{}
+		cx.epochKeys = map[string]string{}
+	}
+	k := key.String()
+	if e, ok := cx.epochKeys[k]; ok {
+		return e
+	}
+	e := fmt.Sprintf("e%d", len(cx.epochs)+1)
+	cx.epochKeys[k] = e
+	cx.epochs[e] = st
+	return e
 }
 
 // epochOf splits a recursive-definition symbol into its base name and tree epoch.
@@ -118,11 +153,13 @@ type Env struct {
 	st    *State
 	old   *State
 	vars  map[string]*Term
-	epoch string // which tree snapshot recursive spec functions read ("" = the unit's entry tree)
+	epoch string // (unused)
+	epochSt *State // tree snapshot recursive spec functions read (nil = the unit's entry tree)
+	loopEntry *State // state when the enclosing loop was entered (for atLoopEntry(e))
 }
 
 func (e *Env) with(vars map[string]*Term) *Env {
-	n := &Env{cx: e.cx, st: e.st, old: e.old, vars: map[string]*Term{}, epoch: e.epoch}
+	n := &Env{cx: e.cx, st: e.st, old: e.old, vars: map[string]*Term{}, epochSt: e.epochSt, loopEntry: e.loopEntry}
 	for k, v := range e.vars {
 		n.vars[k] = v
 	}
@@ -244,6 +281,15 @@ func (cx *Ctx) ResolveType(name string) (string, types.Type) {
 func (env *Env) comp(name string) *Term {
 	if env.cx.inTree > 0 {
 		env.cx.treeReads[name] = true
+		if n := len(env.cx.curRec); n > 0 {
+			if env.cx.recReads == nil {
+				env.cx.recReads = map[string]map[string]bool{}
+			}
+			if env.cx.recReads[env.cx.curRec[n-1]] == nil {
+				env.cx.recReads[env.cx.curRec[n-1]] = map[string]bool{}
+			}
+			env.cx.recReads[env.cx.curRec[n-1]][name] = true
+		}
 	}
 	return env.st.Get(env.cx, name)
 }
@@ -283,11 +329,20 @@ func (env *Env) ev(x *Expr) *Term {
 			}
 		}
 		efail("unknown identifier %s", x.Name)
+	case "call":
+		if x.Name == "atLoopEntry" && len(x.Args) == 1 {
+			if env.loopEntry == nil {
+				efail("atLoopEntry() is only meaningful in loop invariants")
+			}
+			n := &Env{cx: env.cx, st: env.loopEntry, old: env.old, vars: env.vars, epochSt: env.epochSt, loopEntry: env.loopEntry}
+			return n.ev(x.Args[0])
+		}
+		return env.call(x)
 	case "old":
 		if env.old == nil {
 			efail("old() not allowed here")
 		}
-		n := &Env{cx: env.cx, st: env.old, old: env.old, vars: env.vars, epoch: env.epoch}
+		n := &Env{cx: env.cx, st: env.old, old: env.old, vars: env.vars, epochSt: env.epochSt}
 		return n.ev(x.X)
 	case "unary":
 		a := env.ev(x.X)
@@ -351,8 +406,6 @@ func (env *Env) ev(x *Expr) *Term {
 			return Forall(bvs, body, pats...)
 		}
 		return Exists(bvs, body)
-	case "call":
-		return env.call(x)
 	}
 	efail("cannot evaluate %s", x.Kind)
 	return nil
@@ -702,9 +755,21 @@ func (env *Env) call(x *Expr) *Term {
 		}
 		name := x.Name
 		rd, isRec := spec.recdefs[x.Name]
-		if isRec && env.epoch != "" {
-			name = x.Name + "!" + env.epoch
-			enc.declFun(name, f.Args, f.Ret)
+		if isRec {
+			if len(env.cx.curRec) > 0 {
+				if env.cx.recCalls == nil {
+					env.cx.recCalls = map[string]map[string]bool{}
+				}
+				cur := env.cx.curRec[len(env.cx.curRec)-1]
+				if env.cx.recCalls[cur] == nil {
+					env.cx.recCalls[cur] = map[string]bool{}
+				}
+				env.cx.recCalls[cur][x.Name] = true
+			}
+			if e := env.cx.epochName(x.Name, env.epochSt); e != "" {
+				name = x.Name + "!" + e
+				enc.declFun(name, f.Args, f.Ret)
+			}
 		}
 		r := App(name, f.Ret, args...)
 		if isRec && rd.RetT != nil {
@@ -735,7 +800,7 @@ func (env *Env) callDef(d *Def, args []*Term) *Term {
 		vars[p.Name] = a
 	}
 	// defs see only their parameters (hygiene), but the caller's state
-	n := &Env{cx: env.cx, st: env.st, old: env.old, vars: vars, epoch: env.epoch}
+	n := &Env{cx: env.cx, st: env.st, old: env.old, vars: vars, epochSt: env.epochSt, loopEntry: env.loopEntry}
 	r := n.ev(d.Body)
 	if d.Ret != "" {
 		s, gt := env.cx.ResolveType(d.Ret)
